@@ -70,6 +70,11 @@ impl Controller for StaticResourceController {
                     return false
                 }
 
+                let boxed_index_md = metadata(&index_html_in_directory);
+                if boxed_index_md.is_err() || !boxed_index_md.unwrap().is_file() {
+                    return false
+                }
+
                 is_directory_with_index_html = true;
             }
         }
@@ -102,7 +107,10 @@ impl Controller for StaticResourceController {
             let static_filepath = boxed_static_filepath.unwrap();
             let boxed_file = File::open(&static_filepath);
 
-            boxed_file.is_ok() && is_matching_method
+            let boxed_html_md = metadata(&static_filepath);
+            let is_html_file = boxed_html_md.is_ok() && boxed_html_md.unwrap().is_file();
+
+            boxed_file.is_ok() && is_html_file && is_matching_method
         }
 
     }
